@@ -95,8 +95,90 @@ def bkldltc (args : List String) : Option String := do
       pure s!"{f.info} {if f.s.ok then 1 else 0} P {perm} D {showCs f.s.data} X -"
   | _ => none
 
+/-! ### histories on ONE object (`hist`) and on one `DenseSymShiftSolve` wrapper (`whist`)
+
+  `hist <d|f|c> alpha  { C n uplo rowMajor shift <matrix memory> | S <rhs of the current size> }*`
+      one model state is threaded through all steps (`computeFrom`: members reset as BKLDLT.h resets them, packed array only resized);
+      answer: per step `C info ok P <m_perm> Q <m_permc pairs> D <packed data>` resp. `S ok X <solution>`, joined by ` | `.
+  `whist n uplo rowMajor alpha <matrix memory>  { T sigma | E sigma | P <rhs> }*`   (double)
+      `T` = `set_shift(sigma)`, `E` = `SymEigsShiftSolver(op, nev, ncv, sigma)` (its constructor is `op.set_shift(sigma)`), `P` = `perform_op`;
+      answer: per step `ok` / `throw std::invalid_argument` / `X <y>`, joined by ` | `. -/
+structure HistOps (γ ρ : Type) where
+  per : Nat
+  arr? : List String → Option (Array γ)
+  real? : String → Option ρ
+  showArr : Array γ → String
+  computeFrom : BKLDLT.Fact γ → Array γ → Bool → Int → Int → ρ → ρ → BKLDLT.Fact γ
+  solve : BKLDLT.Fact γ → Array γ → BKLDLT.Sv γ
+  fresh : BKLDLT.Fact γ
+
+def showPermc (pc : List (Int × Int)) : String := joinSp (pc.map (fun ab => s!"{ab.1}:{ab.2}")) ++ "."
+
+def histSteps {γ ρ : Type} (ops : HistOps γ ρ) (alpha : ρ) : Nat → List String → BKLDLT.Fact γ → List String → Option (List String)
+  | _, [], _, acc => some acc.reverse
+  | 0, _ :: _, _, _ => none
+  | fuel + 1, "C" :: n :: uplo :: rm :: shift :: rest, f, acc => do
+      let n ← parseNat? n; let uplo ← parseInt? uplo; let rm ← parseNat? rm; let shift ← ops.real? shift
+      let (m, rest) ← takeN? (ops.per * n * n) rest
+      let src ← ops.arr? m
+      let f' := ops.computeFrom f src (rm == 1) (n : Int) uplo shift alpha
+      let perm := joinSp (f'.s.perm.toList.map toString)
+      histSteps ops alpha fuel rest f' (s!"C {f'.info} {if f'.s.ok then 1 else 0} P {perm} Q {showPermc f'.permc} D {ops.showArr f'.s.data}" :: acc)
+  | fuel + 1, "S" :: rest, f, acc => do
+      let (b, rest) ← takeN? (ops.per * f.s.n.toNat) rest
+      let b ← ops.arr? b
+      let v := ops.solve f b
+      histSteps ops alpha fuel rest f (s!"S {if v.s.ok then 1 else 0} X {ops.showArr v.x}" :: acc)
+  | _, _, _, _ => none
+
+def opsD : HistOps Float Float :=
+  { per := 1, arr? := floatArr?, real? := ofBits?, showArr := showFs,
+    computeFrom := fun f src rm n uplo shift alpha => BKLDLT.computeFrom f src rm n uplo shift alpha,
+    solve := BKLDLT.solve_inplace, fresh := BKLDLT.freshFact }
+def opsF : HistOps Float32 Float32 :=
+  { per := 1, arr? := fun l => (l.mapM ofBits32?).map List.toArray, real? := ofBits32?, showArr := showFs32,
+    computeFrom := fun f src rm n uplo shift alpha => BKLDLT.computeFrom f src rm n uplo shift alpha,
+    solve := BKLDLT.solve_inplace, fresh := BKLDLT.freshFact }
+def opsC : HistOps (BKLDLTC.Cx Float) Float :=
+  { per := 2, arr? := cxArr?, real? := ofBits?, showArr := showCs,
+    computeFrom := fun f src rm n uplo shift alpha => BKLDLTC.computeFrom f src rm n uplo shift alpha,
+    solve := BKLDLTC.solve_inplace, fresh := BKLDLT.freshFact }
+
+def hist (args : List String) : Option String := do
+  match args with
+  | "d" :: alpha :: rest => let alpha ← ofBits? alpha; (histSteps opsD alpha rest.length rest opsD.fresh []).map (String.intercalate " | ")
+  | "f" :: alpha :: rest => let alpha ← ofBits32? alpha; (histSteps opsF alpha rest.length rest opsF.fresh []).map (String.intercalate " | ")
+  | "c" :: alpha :: rest => let alpha ← ofBits? alpha; (histSteps opsC alpha rest.length rest opsC.fresh []).map (String.intercalate " | ")
+  | _ => none
+
+def whistSteps (alpha : Float) : Nat → List String → BKLDLT.DenseShift Float → List String → Option (List String)
+  | _, [], _, acc => some acc.reverse
+  | 0, _ :: _, _, _ => none
+  | fuel + 1, tag :: sigma :: rest, w, acc =>
+      if tag == "T" || tag == "E" then do
+        let sigma ← ofBits? sigma
+        let (r, w') := w.set_shift sigma alpha
+        whistSteps alpha fuel rest w' (showRes r :: acc)
+      else if tag == "P" then do
+        let (b, rest) ← takeN? w.n.toNat (sigma :: rest)
+        let b ← floatArr? b
+        whistSteps alpha fuel rest w (("X " ++ showFs (w.perform_op b)) :: acc)
+      else none
+  | _, _, _, _ => none
+
+def whist (args : List String) : Option String := do
+  match args with
+  | n :: uplo :: rm :: alpha :: rest =>
+    let n ← parseNat? n; let uplo ← parseInt? uplo; let rm ← parseNat? rm; let alpha ← ofBits? alpha
+    let (m, rest) ← takeN? (n * n) rest
+    let src ← floatArr? m
+    (whistSteps alpha rest.length rest (BKLDLT.DenseShift.ctor src (rm == 1) (n : Int) uplo) []).map (String.intercalate " | ")
+  | _ => none
+
 def handle : List String → Option String
   | "bkldlt" :: args => bkldlt args
+  | "hist" :: args => hist args
+  | "whist" :: args => whist args
   | "bkldltc" :: args => bkldltc args
   | "bkldlt32" :: args => bkldlt32 args
   | ["solve2", e11, e21, e22, b1, b2] => do
